@@ -735,6 +735,13 @@ func (u *Unit) callByContract(call *ast.CallExpr, f *types.Func, con *Contract, 
 	} else if !u.inSpec {
 		u.havocCalls[key] = true
 	}
+	// recursion: where caller and callee both declare a measure, the callee's is smaller (termination)
+	if con != nil && con.Variant != nil && u.con != nil && u.con.Variant != nil && !u.inSpec && call != nil && len(u.inlineStack) == 0 {
+		mine := u.evalClauseVal(u.con.Variant, u.entry.clone(), u.entry, nil, u.entryBindings(nil))
+		theirs := u.evalClauseVal(con.Variant, st, st, nil, rv)
+		u.oblige(st, fmt.Sprintf("%s#variant", siteName), "variant", and("(>= "+theirs.T+" 0)", "(< "+theirs.T+" "+mine.T+")"), []string{"C13"}, con.Variant,
+			"recursion is well-founded: the measure of "+key+" ("+con.Variant.Text+") is smaller than that of the caller", call)
+	}
 	pure := con != nil && con.Pure
 	pre := st
 	if !pure && !u.inSpec {
